@@ -58,5 +58,24 @@ HammerInit == StateFullJ(WithDb0(InitServer({1, 2, 3, 4}),
                   (ka :> VStr(N(0), 0)) @@ (kb :> VStr(N(0), 0)) @@ (kl :> VList(<<x, y>>, 0)) @@ (kh :> VHash((f :> N(0)), 0)) @@ (ks :> VSet({x, y}, 0))))
 ASSUME PrintT(ToJson([hammer |-> HammerSpecs, pre |-> HammerInit]))
 
+(* Forced interleavings (needs the verif hook ds.unlocked): connection 1 issues one command X and is held at the
+   moment it first releases the data store lock; connection 2 runs a short conflicting program Y; connection 1 is
+   released.  If X does its work in one critical section it has finished by then; a command that checks first and
+   writes in a second critical section (MSETNX testing for existence outside the lock ...) is interleaved with at
+   exactly the wrong moment, and the recorded history has no linearization. *)
+kc == B("c")
+GX == { C("MSETNX", <<kc, N(1), kd, N(1)>>), C("MSETNX", <<ka, N(1), kc, N(1)>>), C("MSET", <<ka, N(5), kb, N(5)>>), C("SETNX", <<kc, N(1)>>),
+        C("SET", <<kc, N(1), W("NX")>>), C("SET", <<ka, N(9), W("XX"), W("GET")>>), C("INCR", <<ka>>), C("INCRBY", <<ka, N(10)>>), C("APPEND", <<kb, x>>),
+        C("GETSET", <<ka, N(7)>>), C("GETDEL", <<ka>>), C("RENAME", <<ka, kc>>), C("RENAMENX", <<ka, kb>>), C("COPY", <<ka, kc>>),
+        C("SMOVE", <<ks, ks2, x>>), C("LMOVE", <<kl, kl2, W("LEFT"), W("RIGHT")>>), C("RPOPLPUSH", <<kl, kl>>), C("SINTERSTORE", <<ks2, ks, ks>>),
+        C("SUNIONSTORE", <<ks2, ks>>), C("SDIFFSTORE", <<ks, ks, ks2>>), C("LPUSHX", <<kl, x>>), C("LINSERT", <<kl, W("BEFORE"), y, B("z")>>),
+        C("HSETNX", <<kh, f, N(5)>>), C("HINCRBY", <<kh, f, N(1)>>), C("SETRANGE", <<kb, N(0), x>>), C("LPOP", <<kl>>), C("DEL", <<ka, kb>>),
+        C("EXISTS", <<ka, kb>>), C("MGET", <<ka, kb>>), C("BITOP", <<W("OR"), kc, ka, kb>>), C("LSET", <<kl, N(0), B("z")>>), C("SREM", <<ks, x>>),
+        C("PERSIST", <<ka>>), C("LPOS", <<kl, y>>), C("STRLEN", <<ka>>) }
+GY == { <<C("SET", <<ka, N(7)>>)>>, <<C("DEL", <<ka>>)>>, <<C("MSETNX", <<kc, N(2), kd, N(2)>>)>>, <<C("SET", <<kc, N(2)>>)>>, <<C("RPUSH", <<kl, B("q")>>)>>,
+        <<C("LPOP", <<kl>>), C("LPOP", <<kl>>)>>, <<C("SADD", <<ks, B("q")>>), C("SREM", <<ks, x>>)>>, <<C("DEL", <<kl>>)>>, <<C("HSET", <<kh, f, N(9)>>)>>,
+        <<C("SET", <<kb, B("zz")>>)>>, <<C("RENAME", <<ka, kd>>)>>, <<C("SADD", <<ks2, x>>)>> }
+ASSUME PrintT(ToJson([gated |-> {[x |-> gx, y |-> gy] : gx \in GX, gy \in GY}, pre |-> HammerInit]))
+
 ConcVocab == UNION {{<<c, m>> : m \in PerConn(c)} : c \in {1, 2, 3}}
 =============================================================================
